@@ -5,10 +5,12 @@ import (
 	"fmt"
 	"io"
 	"log"
+	"net"
 	"os"
 	"path/filepath"
 	"sort"
 	"strings"
+	"time"
 
 	"github.com/la5nta/wl2k-go/fbb"
 	"github.com/la5nta/wl2k-go/mailbox"
@@ -112,6 +114,7 @@ func init() {
 		}
 		dirMailboxRetry(c)
 		dirMailboxStorageFault(c)
+		storageFaultUnbuffered(c)
 		c.Compare(cases)
 	})
 }
@@ -177,6 +180,89 @@ func retryHistory(c *Ctx, sa0, sb0 *sessSpec, clean *pairRun) {
 		}
 	}
 	c.Res.Distribution["retry-history"]++
+}
+
+// scaledConn is a net.Pipe end (UNBUFFERED: a write blocks until the peer reads) on which every requested
+// deadline comes 200 times sooner, so that "ends by the link's deadline" can be observed in a test run.
+type scaledConn struct{ net.Conn }
+
+func scaleDeadline(t time.Time) time.Time {
+	if t.IsZero() {
+		return t
+	}
+	d := time.Until(t) / 200
+	if d < 50*time.Millisecond {
+		d = 50 * time.Millisecond
+	}
+	return time.Now().Add(d)
+}
+func (c scaledConn) SetDeadline(t time.Time) error { return c.Conn.SetDeadline(scaleDeadline(t)) }
+func (c scaledConn) SetReadDeadline(t time.Time) error {
+	return c.Conn.SetReadDeadline(scaleDeadline(t))
+}
+func (c scaledConn) SetWriteDeadline(t time.Time) error {
+	return c.Conn.SetWriteDeadline(scaleDeadline(t))
+}
+
+// storageFaultUnbuffered: ProcessInbound fails on a message that is NOT the last of its block, over an
+// unbuffered link: the sender is busy writing the next message while the receiver wants to report the error.
+// Both Exchange calls must still return (in bounded time), and nothing undelivered may be marked sent.
+func storageFaultUnbuffered(c *Ctx) {
+	for i := 0; i < c.Budget(4, 30) && c.TimeLeft(); i++ {
+		sa, sb := newSpec("LA5NTA", "N0CALL", i%2 == 0), newSpec("N0CALL", "LA5NTA", i%2 != 0)
+		sa.ihash, sb.ihash = false, false
+		n := 2 + c.Rng.Intn(3)
+		seen := map[string]bool{}
+		for len(sa.outbox) < n {
+			m := genMessage(c.Rng, sa.mycall, sb.mycall, 3000)
+			if !seen[m.MID()] {
+				seen[m.MID()] = true
+				sa.outbox = append(sa.outbox, newOutMsg(m))
+			}
+		}
+		sb.failAt = c.Rng.Intn(n - 1) // not the last one
+		pa, pb := net.Pipe()
+		twa, twb := newTwin(sa), newTwin(sb)
+		xa, xb := sa.newSession(twa), sb.newSession(twb)
+		done := make(chan error, 2)
+		t0 := time.Now()
+		go func() { _, e := xa.Exchange(scaledConn{pa}); done <- e }()
+		go func() { _, e := xb.Exchange(scaledConn{pb}); done <- e }()
+		returned := 0
+		var errs []string
+		timeout := time.After(8 * time.Second)
+	wait:
+		for returned < 2 {
+			select {
+			case e := <-done:
+				returned++
+				errs = append(errs, fmt.Sprint(e))
+			case <-timeout:
+				break wait
+			}
+		}
+		rep := map[string]interface{}{"messages": n, "process_inbound_fails_at": sb.failAt, "link": "net.Pipe (unbuffered), deadlines 200x sooner", "returned": returned, "errors": errs, "elapsed_ms": time.Since(t0).Milliseconds()}
+		if returned < 2 {
+			pa.Close()
+			pb.Close()
+			c.Violate("C02:no-return:storage-fault-unbuffered", fmt.Sprintf("%d of 2 Exchange calls had not returned 8 s after ProcessInbound failed on message %d of %d over an unbuffered link (both sides blocked writing)", 2-returned, sb.failAt+1, n), rep)
+			continue
+		}
+		stored := map[string]bool{}
+		for _, d := range twb.inbox {
+			for _, o := range sa.outbox {
+				if bytes.Equal(d, o.data) {
+					stored[o.mid] = true
+				}
+			}
+		}
+		for mid, rejected := range twa.sent {
+			if !rejected && !stored[mid] {
+				c.Violate("C02:sent-but-not-received:storage-fault-unbuffered", "message "+mid+" was reported sent although the receiving handler's storage failed / never got it", rep)
+			}
+		}
+		c.Res.Distribution["storage-fault-unbuffered(oracle only)"]++
+	}
 }
 
 // dirMailboxStorageFault: the receiver is the real directory mailbox and its storage GENUINELY fails (no
@@ -286,10 +372,15 @@ func dirMailboxRetry(c *Ctx) {
 		ha.Prepare()
 		hb.Prepare()
 		want := map[string][]byte{}
+		lastMid := ""
 		n := 1 + c.Rng.Intn(4)
 		for j := 0; j < n; j++ {
 			m := genMessage(c.Rng, "LA5NTA", "N0CALL", 1500)
 			m.Header.Del("Cc") // a P2P peer is only offered messages addressed to it alone
+			if j > 0 && j%2 == 1 && len(lastMid) > 0 && swapCase(lastMid) != lastMid {
+				m.Header.Set("Mid", swapCase(lastMid)) // a different message whose MID differs only in letter case
+			}
+			lastMid = m.MID()
 			data, _ := m.Bytes()
 			want[m.MID()] = data
 			ha.AddOut(m)
